@@ -4,7 +4,7 @@
                                  plan of shape sh (every real trace is checked for that, and against the monitors, on
                                  every run of ./check C08).
    mon_persist, mon_reads      : coq/c08/MonC08.v (the formal statement of the property over a trace).
-   image_after tr              : the durable image after tr = fold of its EvWrite events.
+   image_after tr, reason_after tr : the durable image (reason) after tr = fold of its EvWrite events.
 
    All theorems: every shape, every trace, every interleaving; no bounds. *)
 From Coercion.Base Require Import Plan.
@@ -35,7 +35,7 @@ Theorem c08_release_after_terminal_write :
   forall (sh : shape) (tr : list event) (fin : image) (s : st),
     shape_wf sh = true -> run sh init (tr ++ [EvRelease fin]) = Some s ->
     is_terminal (ist (image_after tr) OPlan) = true /\
-    exists r, image_agrees (all_objs sh) (image_after tr) r fin = true.
+    image_agrees (all_objs sh) (image_after tr) (reason_after tr) fin = true.
 Proof. exact release_after_terminal_write. Qed.
 Print Assumptions c08_release_after_terminal_write.
 
